@@ -10,11 +10,14 @@ def fam(name, quick, thorough, seeds=4, args=None):
 
 PROPS = {
     "C16": {
-        "families": [fam("cosopt", 0, 0, seeds=2)],
+        "families": [fam("cosopt", 0, 0, seeds=2), fam("cosoptproxy", 0, 0, seeds=1)],
         "defects": ["D10"],
         "coverage_extra": {"exhaustive": True},
         "rule": "all 2^9 subsets of the nine exception modifiers as real rule texts (modifier order shuffled from VERIF_SEED) plus "
-                "absent and non-exception basic rules, through NewMatchingResult(...).GetCosmeticOption() and Engine.GetCosmeticResult; "
+                "absent and non-exception basic rules, through NewMatchingResult(...).GetCosmeticOption() and Engine.GetCosmeticResult, each also "
+                "with referrer rules (same exception / $genericblock / $urlblock on the referrer); cosoptproxy: the real proxy server on loopback in front "
+                "of a local origin, one HTML page per subset of {elemhide, generichide, jsinject, urlblock, important}, fetched with a browser-like and "
+                "with a */* Accept header, option read back from the injected tag; "
                 "non-trivial = the option differs from 'no answer'; distinct by hash of the op input",
     },
     "C04": {
